@@ -464,6 +464,10 @@ def run_unit(unit, prop, extra_args=(), kind='proof', timeout=300):
     blocks = re.split(r'\n(?=error)', diag)
     for fn, ok, t, mode in funcs:
         short = fn.split('::', 1)[1] if '::' in fn else fn
+        last = short.split('::')[-1]
+        if ok and (last == 'clone' or last.isupper() or last in ('FIRST', 'LAST')):
+            # derived Clone impls and constant initialisers are checked by Verus but are not obligations of any property
+            continue
         name = '%s::%s' % (unit, short)
         if ok:
             obs.append(Ob(name, 'verus', DISCHARGED, t, kind=kind, functions=[short]))
